@@ -25,7 +25,7 @@ fn opnd_from(v: &Value) -> Opnd {
         "num" => Opnd::Num(to_f64(&v["c"])),
         "dv" => {
             let mut d = v1::DecisionVariable::default();
-            d.id = v["id"].as_u64().unwrap();
+            d.id = vid(&v["id"]);
             // the algebra must not depend on anything but the id; operands carry a kind and a bound to show that
             if let Some(k) = v.get("vk").and_then(|k| k.as_str()) {
                 d.kind = kind_from(k);
@@ -40,7 +40,7 @@ fn opnd_from(v: &Value) -> Opnd {
         }
         "param" => {
             let mut d = v1::Parameter::default();
-            d.id = v["id"].as_u64().unwrap();
+            d.id = vid(&v["id"]);
             Opnd::Param(d)
         }
         "lin" => Opnd::Lin(linear_from(&v["f"])),
@@ -67,12 +67,12 @@ fn err(e: impl std::fmt::Display) -> Value {
 fn iter_terms(f: &Function) -> Value {
     Value::Array(
         f.into_iter()
-            .map(|(ids, c)| json!({"ids": ids.iter().cloned().collect::<Vec<u64>>(), "c": from_f64(c)}))
+            .map(|(ids, c)| json!({"ids": vids_to(ids.iter()), "c": from_f64(c)}))
             .collect(),
     )
 }
 fn ids_to<'a>(it: impl IntoIterator<Item = &'a u64>) -> Value {
-    Value::Array(it.into_iter().map(|x| json!(x)).collect())
+    Value::Array(it.into_iter().map(|x| json!(down(*x))).collect())
 }
 fn bound_v(b: &Bound) -> Value {
     json!({"lo": from_f64(b.lower()), "hi": from_f64(b.upper())})
@@ -100,6 +100,9 @@ pub fn guarded(f: impl FnOnce() -> Value) -> Value {
 pub fn apply(ev: &Value) -> Vec<Value> {
     let name = ev["ev"].as_str().expect("ev");
     let inp = &ev["in"];
+    // relabelled replay of a function-level event (see shape::up): the logged event keeps the small ids
+    const LIFTABLE: [&str; 8] = ["eval_fn", "partial_fn", "subst_fn", "arith", "fn_info", "ctor", "eval_bound", "content_factor"];
+    set_lift(if LIFTABLE.contains(&name) { inp.get("lift").and_then(|m| m.as_str()) } else { None });
     let mk = |out: Value| -> Value {
         let mut e = ev.clone();
         e["out"] = out;
@@ -218,18 +221,18 @@ pub fn apply(ev: &Value) -> Vec<Value> {
         "ctor" => {
             let out = guarded(|| match inp["kind"].as_str().unwrap() {
                 "linear_new" => {
-                    let terms: Vec<(u64, f64)> = inp["terms"].as_array().unwrap().iter().map(|t| (t[0].as_u64().unwrap(), to_f64(&t[1]))).collect();
+                    let terms: Vec<(u64, f64)> = inp["terms"].as_array().unwrap().iter().map(|t| (vid(&t[0]), to_f64(&t[1]))).collect();
                     let l = Linear::new(terms.into_iter(), to_f64(&inp["constant"]));
                     json!({"tag":"ok","f":linear_to(&l)})
                 }
                 "quadratic_from_iter" => {
                     let q: Quadratic = inp["entries"].as_array().unwrap().iter()
-                        .map(|t| ((t[0].as_u64().unwrap(), t[1].as_u64().unwrap()), to_f64(&t[2]))).collect();
+                        .map(|t| ((vid(&t[0]), vid(&t[1])), to_f64(&t[2]))).collect();
                     json!({"tag":"ok","f":quadratic_to(&q)})
                 }
                 _ => {
                     let p: Polynomial = inp["terms"].as_array().unwrap().iter()
-                        .map(|t| (ommx_sorted(t[0].as_array().unwrap().iter().map(|x| x.as_u64().unwrap()).collect()), to_f64(&t[1]))).collect();
+                        .map(|t| (ommx_sorted(t[0].as_array().unwrap().iter().map(vid).collect()), to_f64(&t[1]))).collect();
                     json!({"tag":"ok","f":polynomial_to(&p)})
                 }
             });
@@ -283,7 +286,7 @@ pub fn apply(ev: &Value) -> Vec<Value> {
                 for e in inp["box"].as_array().unwrap() {
                     match bound_in(&e[1]) {
                         Ok(b) => {
-                            bounds.insert(ommx::VariableID::from(e[0].as_u64().unwrap()), b);
+                            bounds.insert(ommx::VariableID::from(vid(&e[0])), b);
                         }
                         Err(e) => return json!({"tag":"bad_input","msg":e.to_string()}),
                     }
